@@ -93,13 +93,14 @@ Definition utf16be_decode_bytes (bs : list N) : list N :=
 Definition read_u32_le (b : list N) : outcome N :=
   match b with
   | b0 :: b1 :: b2 :: b3 :: _ => Ok (b0 + 256 * b1 + 65536 * b2 + 16777216 * b3)
-  | _ => Panic                                  (* s[..4] on a shorter slice *)
+  | _ => Panic                                  (* s[..4] on a shorter slice: wide_str checks first *)
   end.
 
 Definition ERR_WIDESTR : N := 1.
 
 (* fn wide_str(buf, &mut str_len): (decoded text, str_len) *)
 Definition wide_str (buf : list N) : outcome (list N * N) :=
+  if N.of_nat (length buf) <? 4 then Err ERR_WIDESTR else       (* buf.len() < 4 (C06 hardening) *)
   do len <- read_u32_le buf;
   let total := 4 + len * 2 in                    (* usize is 64 bits: no overflow for len < 2^32 *)
   if N.of_nat (length buf) <? total then Err ERR_WIDESTR
